@@ -323,13 +323,13 @@ func c07Seed(c *Ctx, b *boardModel, zmove, zhash *ssa.Function) {
 		switch fs.Fn {
 		case newBoard:
 			seen["NewBoard"] = true
-			want := "Hash(" + newBoard.Params[0].Name() + "," + newBoard.Params[1].Name() + "," + newBoard.Params[2].Name() + ")"
+			want := "Hash(" + paramName(newBoard.Params[0]) + "," + paramName(newBoard.Params[1]) + "," + paramName(newBoard.Params[2]) + ")"
 			okv := val == want && st.Val.(*ssa.Call).Call.StaticCallee() == zhash
 			// and the node's pos is the same position
 			r.Check(okv, "R07-seed", cons, c.pos(fs.Pos), "", fmt.Sprintf("stores %s, expected %s", val, want))
 		case push:
 			seen["PushMove"] = true
-			recv, m := push.Params[0].Name(), push.Params[1].Name()
+			recv, m := paramName(push.Params[0]), paramName(push.Params[1])
 			want := fmt.Sprintf("Move(%s.zt,%s.current.hash,%s.current.pos,%s)", recv, recv, recv, m)
 			call, isCall := st.Val.(*ssa.Call)
 			okv := val == want && isCall && call.Call.StaticCallee() == zmove
@@ -348,7 +348,7 @@ func c07Seed(c *Ctx, b *boardModel, zmove, zhash *ssa.Function) {
 			r.Check(okv, "R07-seed", cons, c.pos(fs.Pos), "", detail)
 		case fork:
 			seen["Fork"] = true
-			want := fork.Params[0].Name() + ".current.hash"
+			want := paramName(fork.Params[0]) + ".current.hash"
 			r.Check(val == want, "R07-seed", cons, c.pos(fs.Pos), "", fmt.Sprintf("stores %s, expected %s", val, want))
 		default:
 			r.Fail("R07-seed", cons, c.pos(fs.Pos), "", "unexpected writer of node.hash: "+val)
@@ -411,7 +411,7 @@ func c07Keys(c *Ctx, b *boardModel, rule string) bool {
 		for _, ins := range blk.Instrs {
 			if call, ok := ins.(*ssa.Call); ok {
 				if f := call.Call.StaticCallee(); f != nil && f.String() == "math/rand.NewSource" {
-					seedOK = len(call.Call.Args) == 1 && pathExpr(call.Call.Args[0]) == ctor.Params[0].Name()
+					seedOK = len(call.Call.Args) == 1 && pathExpr(call.Call.Args[0]) == paramName(ctor.Params[0])
 				}
 			}
 			sto, ok := ins.(*ssa.Store)
